@@ -370,6 +370,8 @@ def bytes_method(ex, b, name, args, kwargs):
     if name in ('strip', 'lstrip', 'rstrip'):
         # over-approximation: some byte string that is not longer than the original (content not related)
         r = ex.fresh_bytes('stripped', mutable=b.mutable)
+        if getattr(b, 'ascii_only', False):
+            r.ascii_only = True        # a part of ASCII-only octets is ASCII-only
         ex.assume(mk_bool(N.zlen(r) <= N.zlen(b)))
         ex.ghost['havocked'] = True
         return r
